@@ -1,4 +1,5 @@
-use super::unhex;
+use crate::probes::unhex;
+pub const PREFIX: &str = "time_";
 use snel_db::shared::time::{TimeKind, TimeParser};
 
 fn opt(o: Option<i64>) -> String {
